@@ -36,11 +36,23 @@ def so3_param(rep, q):
     raise ValueError(rep)
 
 
+_USER_GROUPS = {}
+
+
 def group_of(X):
     import cyecca.lie as L
     g = X["g"]
     if g == "SO3":
         return {"quat": L.SO3Quat, "mrp": L.SO3Mrp, "dcm": L.SO3Dcm, "euler": L.SO3EulerB321}[X["rep"]]
+    if g in ("SE3", "SE23") and X["rep"] in ("dcm", "euler"):
+        # user-built groups (the classes are generic over the SO(3) parameterisation): one object per (class, rep)
+        key = (g, X["rep"])
+        if key not in _USER_GROUPS:
+            from cyecca.lie.group_se3 import SE3LieGroup
+            from cyecca.lie.group_se23 import SE23LieGroup
+            S = {"dcm": L.SO3Dcm, "euler": L.SO3EulerB321}[X["rep"]]
+            _USER_GROUPS[key] = (SE3LieGroup if g == "SE3" else SE23LieGroup)(SO3=S)
+        return _USER_GROUPS[key]
     if g == "SE3":
         return {"quat": L.SE3Quat, "mrp": L.SE3Mrp}[X["rep"]]
     if g == "SE23":
